@@ -205,6 +205,42 @@ def evaluate(ctx, stacks, pairs, data, vals, wvals, gold, cfgs):
                                model=m[:1500], oracle_fails=False, key=key, cfg=cfg)
             if len(corr.samples) < 6 and width and inexact and A.tytok != B.tytok:
                 corr.sample({"from": A.label, "to": B.label, "dat": data[a][k][:300], "loaded": o[:300], "cfg": cfg})
+        # ---- a field loaded from another stack's file dumps in ITS OWN format: the re-dump is the model's dump of the
+        #      (converted) content under the loading type -- own scalar width, own tags, closed-form length -- whatever the
+        #      width of the file it came from
+        rs = [(a, b, k, m) for (a, b, k), o, m in zip(xs, xo, xm) if o == m and m.startswith("ok 0 | ")]
+        ro = impl.run(cfg, [(b, "redump {s} " + hexof[(a, k)]) for a, b, k, _ in rs])
+        rm = IO.run_model([f"dump {infos[b].tytok} | {m[len('ok 0 | '):]}" for a, b, k, m in rs])
+        for (a, b, k, _), o, m in zip(rs, ro, rm):
+            A, B = infos[a], infos[b]
+            ob = "io_cross_width" if A.store != B.store else "io_cross_interp"
+            cj = {"op": "crossredump", "from": A.stack, "to": B.stack, "dat": data[a][k], "cfg": cfg}
+            key = {"kind": "crossredump", "from": A.label, "to": B.label, "dat": C.chash(data[a][k])}
+            corr.configs[cfg] += 1
+            corr.case(("crossredump", A.stack, B.stack, data[a][k], cfg), A.store != B.store)
+            corr.dist["cross/redump"] += 1
+            got = o[len("ok 0 | "):] if o.startswith("ok 0 | ") else None
+            dis = got != m
+            corr.add_obl(ob, 1, 1 if dis else 0)
+            if not dis:
+                continue
+            fail = None
+            if got is None:
+                fail = f"re-dump of the loaded field failed: {o[:120]}"
+            else:
+                try:
+                    bs = bytes.fromhex(got)
+                    dd, used, chk = IO.py_load(B.ty, bs)
+                    if used != len(bs) or len(bs) != IO.file_len(B.ty, dd):
+                        fail = f"re-dump has {len(bs)} bytes, the closed form for {B.label} with this content is {IO.file_len(B.ty, dd)}"
+                    else:
+                        ra = IO.array_of(dd)
+                        if ra is not None and B.store and ra[1] != IO.SC[B.store][1]:
+                            fail = f"re-dump stores {ra[1]}-byte scalars, {B.label} stores {IO.SC[B.store][1]}-byte scalars"
+                except (ValueError, IO.FormatError) as e:
+                    fail = f"re-dump does not parse as a {B.label} file: {e}"
+            corr.violation(ob, f"{A.label} -> {B.label}: " + (fail or "re-dump of the loaded field differs from the model's dump of the same content"),
+                           cj, impl=o[:1500], model=m[:1500], oracle_fails=bool(fail), key=key, cfg=cfg)
         # ---- hardware conversion vs the model's narrowBits / widenBits, and vs the exact rational oracle
         for opn, vv in (("narrow", vals), ("widen", wvals)):
             B = 500
@@ -304,7 +340,7 @@ def run(ctx):
 def replay(ctx):
     c = ctx.replay["case"]
     cfg = [c.get("cfg", "dbg")]
-    if c["op"] == "cross":
+    if c["op"] in ("cross", "crossredump"):
         return evaluate(ctx, [c["from"], c["to"]], [(0, 1)], {0: [c["dat"]]}, [], [], [], cfg)
     if c["op"] == "grammar":
         return evaluate(ctx, [c["stack"]], [], {0: [c["dat"]]}, [], [], [], cfg)
